@@ -17,9 +17,10 @@ def module_globals(tree):
                         names.add(x.id)
         elif isinstance(n, (ast.ClassDef, ast.FunctionDef)):
             names.add(n.name)
-        elif isinstance(n, (ast.Import, ast.ImportFrom)):
+        elif isinstance(n, ast.ImportFrom):
             for a in n.names:
                 names.add((a.asname or a.name).split('.')[0])
+        # names bound by a plain `import x` are modules (os.remove is a file-system call, not shared program state)
     return names
 
 
